@@ -376,6 +376,11 @@ class Tr:
                     parts.append(self.env[key])
                 val = ('(' + ', '.join(p[0] for p in parts) + ')',
                        ('TUP', tuple(p[1] for p in parts)))
+            elif result[0] == 'final':
+                # the value the name holds after the whole block
+                if result[1] not in self.env:
+                    raise Fail('name %s never assigned' % result[1])
+                val = self.env[result[1]]
             else:
                 raise Fail('no result statement found (%s)' % (result,))
         t = val[0]
@@ -475,7 +480,7 @@ class Tr:
                             raise Fail('name %s bound in one branch only' % key)
                         t = e[key][0]
                         for nm, rhs in reversed(sl):
-                            t = 'let %s := %s in %s' % (nm, rhs, t)
+                            t = '(let %s := %s in %s)' % (nm, rhs, t)
                         vals.append((t, e[key][1]))
                     (a, ka), (b, kb) = vals
                     if isinstance(ka, tuple) or isinstance(kb, tuple):
@@ -605,6 +610,13 @@ def find_stmts(func, path):
             if sel[1] >= len(cands):
                 raise Fail('path %s not found' % (sel,))
             stmts = cands[sel[1]].body
+        elif sel[0] == 'slice':
+            stmts = stmts[sel[1]:sel[2]]
+        elif sel[0] == 'else':
+            cands = [s for s in stmts if isinstance(s, ast.If)]
+            if sel[1] >= len(cands) or not cands[sel[1]].orelse:
+                raise Fail('path %s not found' % (sel,))
+            stmts = cands[sel[1]].orelse
         elif sel[0] == 'from_target':
             # statements starting at the first assignment to the given target
             for i, s in enumerate(stmts):
